@@ -329,10 +329,29 @@ def ev_sa(case, rec):
     rec.sample({'case': dict(case, easts=case['easts'][:3])})
 
 
+# --- two threads un-projecting DIFFERENT grid coordinates on DIFFERENT ellipsoids / projections at the same time ------
+from gpmc import threads as _thr
+import numpy as _tnp
+import geodepy.constants as _tgc
+import geodepy.convert as _tgv
+import geodepy.geodesy as _tgg
+import geodepy.angles as _tga
+T_CALLS = {
+    'utm_grs80': lambda: (lambda: _tgv.grid2geo(53, 386352.3979, 7381850.7689)),
+    'isg_ans': lambda: (lambda: _tgv.grid2geo(561, 318743.2, 1291327.7, 'south', _tgc.ans, _tgc.isg)),
+    'utm_intl_north': lambda: (lambda: _tgv.grid2geo(18, 612345.678, 4321098.765, 'North', _tgc.intl24)),
+    'user_prj': lambda: (lambda p=_tgc.Projection(200000, 4000000, 0.9999, 4, -178): _tgv.grid2geo(12, 250000.0, 1300000.0, 'north', _tgc.wgs84, p)),
+    'roundtrip': lambda: (lambda: _tgv.geo2grid(*_tgv.grid2geo(55, 300000.0, 6200000.0)[:2])),
+}
+_tg, _te = _thr.make(T_CALLS, ['geodepy/convert.py'], 'convert:grid2geo:threads', quick=['utm_grs80', 'isg_ans', 'utm_intl_north', 'user_prj'],
+                     triple=('utm_grs80', 'isg_ans', 'roundtrip'), files_thorough=['geodepy/constants.py'])
+
+
 SUBCHECKS = [
     Sub('geo_roundtrip', gen_geo, ev_geo, chunk=16, floor=1000, envs=24),
     Sub('grid_lattice', gen_grid, ev_grid, chunk=8, floor=1000, envs=24),
     Sub('standalone', gen_sa, ev_sa, chunk=8, floor=500, envs=1),
+    Sub('threads', _tg, _te, chunk=1, floor=3, poison=False),
 ]
 
 
